@@ -1,6 +1,8 @@
 import CTV.Lemmas.Tbs
+import CTV.Lemmas.TbsLax
 import CTV.Gen.TbsFacts
 import CTV.Props.C04SctList
+import CTV.Lemmas.SigScheme
 /-!
 # C03 — precertificate route and embedded-SCT route yield the identical log entry
 
@@ -37,6 +39,11 @@ theorem facts_as_modelled :
     Gen.removeCTPoisonReturns = "BuildPrecertTBS(tbsData, nil)" ∧
     Gen.buildPrecertTBSFirst = "data, err := removeExtension(tbsData, OIDExtensionCTPoison)" ∧
     Gen.leafFromChainCalls = ["x509.BuildPrecertTBS(cert.RawTBSCertificate, preIssuer)"] ∧
+    -- who is a pre-issuer: the CT key purpose, the row of the EKU table that maps it, and the two loops that look for it
+    ctEkuOid = oidContent Gen.oidExtKeyUsageCT ∧
+    Gen.ekuTableCTRows = ["{ExtKeyUsageCertificateTransparency, oidExtKeyUsageCertificateTransparency}"] ∧
+    Gen.isPreIssuerLoop = "for _, eku := range issuer.ExtKeyUsage { if eku == x509.ExtKeyUsageCertificateTransparency { return true } }" ∧
+    Gen.buildPrecertEkuLoop = "for _, eku := range preIssuer.ExtKeyUsage { if eku == ExtKeyUsageCertificateTransparency { seenCTEKU = true break } }" ∧
     Gen.leafForEmbeddedCalls = ["x509.RemoveSCTList(cert.RawTBSCertificate)"] ∧
     -- the authority-key-id update of BuildPrecertTBS (`akiUpdate`, `setFirst`, `eraseFirst`, `preIssuerEdit` are its transcription)
     Gen.buildPrecertIssuerKeyIDLoop =
@@ -270,6 +277,71 @@ example : (exBase.withExts (insertAt [exKU] 0 exPoison)).wf = true ∧ (exBase.w
     (buildPrecertTBS (marshalTbs (exBase.withExts [exPoison, exKU])) none).isSome = true := by
   set_option maxRecDepth 100000 in decide
 
+/-! ## every accepted input, canonical or not
+
+`laxTbs` (CTV/Model/TbsLax.lean) models what `asn1.Unmarshal` makes of **every** TBSCertificate it accepts — explicit v1, an explicit
+`critical FALSE`, UTCTime without seconds, GeneralizedTime inside 1950..2049, trailing elements, wrong `[0]`/`[3]` wrapper lengths … —
+in the normal form `asn1.Marshal` writes; `removeExtLax` / `buildPrecertTBSLax` are the two functions over it. These are what the
+driver answers with on every trace line, so the implementation's real result is compared for every input, not only canonical ones. -/
+
+/-- **On canonical input the two models coincide** (so everything proved about `parseTbs` / `removeExt` / `buildPrecertTBS`
+holds for the functions the driver runs): same content, same results; and an input is canonical iff the lax model reproduces it. -/
+theorem lax_agrees_on_canonical (bs : Bytes) (t : Tbs) (h : parseTbs bs = some t) :
+    laxTbs bs = some t ∧ remarshalLax bs = some bs ∧
+    (∀ oid, removeExtLax oid bs = removeExt oid bs) ∧ (∀ p, buildPrecertTBSLax bs p = buildPrecertTBS bs p) := by
+  have hl := lax_of_canonical h
+  refine ⟨hl, by simp [remarshalLax, hl, (parseTbs_eq h).1], fun oid => removeExtLax_canonical oid h, ?_⟩
+  intro p
+  unfold buildPrecertTBSLax buildPrecertTBS
+  rw [removeExtLax_canonical poisonOid h]
+  cases hr : removeExt poisonOid bs with
+  | none => rfl
+  | some d =>
+    obtain ⟨A, x, B, _, _, _, _, _, hp⟩ := (remove_exact poisonOid bs t h).2 d hr
+    simp only
+    rw [hp, lax_of_canonical hp]
+    cases p <;> rfl
+
+theorem canonical_iff_reproduced (bs : Bytes) (t : Tbs) :
+    parseTbs bs = some t ↔ (laxTbs bs = some t ∧ t.wf = true ∧ marshalTbs t = bs) := by
+  constructor
+  · intro h; exact ⟨lax_of_canonical h, (parseTbs_eq h).2, (parseTbs_eq h).1⟩
+  · rintro ⟨_, hw, hm⟩; exact (canonical_iff bs t).mpr ⟨hw, hm⟩
+
+/- FULL (clause 1 for every accepted input): `∀ pre fin, laxTbs pre = some (t.withExts (insertAt es i poison)) →
+   laxTbs fin = some (t.withExts (insertAt es j sct)) → buildPrecertTBSLax pre none = removeExtLax sctOid fin`, with no further hypothesis.
+   PROVED below with the two hypotheses that those normal forms are well-formed (`wf`). MISSING: `laxTbs bs = some t → t.wf`
+   ("the normal form the fork writes is canonical"). It is false at one boundary — normalising can *add* bytes (`00` seconds of a
+   UTCTime), so a content within two bytes of the fork's 2^31 length limit has a normal form the fork could not read back — and is
+   otherwise unproved (it needs the per-field canonical-form predicates for every accepted form). The driver evaluates `t.wf` for the
+   normal form of every traced input and answers `MODEL-INCONSISTENT normal-form-not-wf` if it fails; it never has. -/
+/-- **The two routes commute for every accepted input** whose content is the same up to the poison / SCT-list extension, whatever
+non-canonical form either input is written in (the forms need not even be the same on both sides). -/
+theorem routes_commute_accepted_partial (pre fin : Bytes) (t : Tbs) (es : List Ext) (i j : Nat) (pc sc : Bool) (pv sv : Bytes)
+    (hp : laxTbs pre = some (t.withExts (insertAt es i ⟨poisonOid, pc, pv⟩)))
+    (hf : laxTbs fin = some (t.withExts (insertAt es j ⟨sctOid, sc, sv⟩)))
+    (hnp : hasOid poisonOid es = false) (hns : hasOid sctOid es = false)
+    (hwp : (t.withExts (insertAt es i ⟨poisonOid, pc, pv⟩)).wf = true)
+    (hws : (t.withExts (insertAt es j ⟨sctOid, sc, sv⟩)).wf = true) :
+    buildPrecertTBSLax pre none = removeExtLax sctOid fin ∧
+    removeExtLax sctOid fin = some (marshalTbs (t.withExts es)) ∧
+    remarshalLax (marshalTbs (t.withExts es)) = some (marshalTbs (t.withExts es)) := by
+  obtain ⟨h1, hw⟩ := removeExtLax_insert pre t es i _ poisonOid rfl hnp hp hwp
+  obtain ⟨h2, _⟩ := removeExtLax_insert fin t es j _ sctOid rfl hns hf hws
+  have hl := lax_marshal _ hw
+  refine ⟨?_, h2, by simp [remarshalLax, hl]⟩
+  simp only [buildPrecertTBSLax, h1, hl, h2]
+
+/-- explicit v1 (`a0 03 02 01 00`) and a trailing OCTET STRING after the SubjectPublicKeyInfo: accepted, not canonical, and
+re-marshalled without either (8 bytes shorter) -/
+example :
+    let bs : Bytes := [0x30, 0x42, 0xa0, 0x03, 0x02, 0x01, 0x00, 0x02, 0x01, 0x05, 0x30, 0x05, 0x06, 0x03, 0x2b, 0x65, 0x70, 0x30, 0x00,
+      0x30, 0x1e, 0x17, 0x0d] ++ utc2030 ++ [0x17, 0x0d] ++ utc2049 ++
+      [0x30, 0x00, 0x30, 0x0a, 0x30, 0x05, 0x06, 0x03, 0x2b, 0x65, 0x70, 0x03, 0x01, 0x00, 0x04, 0x01, 0x00]
+    parseTbs bs = none ∧ (laxTbs bs).isSome = true ∧ remarshalLax bs ≠ some bs ∧
+    (remarshalLax bs).map List.length = some (bs.length - 8) := by
+  set_option maxRecDepth 100000 in decide
+
 /-! ## `buildPrecertTBS_cases` and the authority-key-id update -/
 
 /-- no extension of `A` is an authority key id -/
@@ -394,6 +466,12 @@ and carries the extensions `pe` plus the poison at any position `i`; the final c
 present/absent combinations of the authority key id (in the `append` case the relation *is* the hypothesis that the final
 issuer writes the key id as the last extension, non-critical). Then `BuildPrecertTBS(precert, preIssuer)` and
 `RemoveSCTList(final)` are the same bytes. -/
+/- FULL (quantifier "with and without authority key identifiers on either side"): for EVERY final certificate issued by the pre-issuer's
+   issuer for the same content. PROVED: for the final certificates whose extension list is `AkiRel p.aki pe fe`-related to the
+   precertificate's. MISSING, and false on the real code: precertificate without AKI + pre-issuer with AKI + a final certificate that
+   carries its AKI anywhere but last (or critical) — e.g. every certificate crypto/x509.CreateCertificate issues; the code appends the
+   key id at the end (`tbs.Extensions = append(tbs.Extensions, authKeyIDExt)`), so the two routes then differ, in exactly the position
+   of that one extension (asserted by the harness in that branch: `class:aki-appended-vs-library-placement…`). -/
 theorem routes_commute_preissuer (c : Tbs) (p : PreIssuer) (piName : Tlv) (pe fe : List Ext) (i j : Nat)
     (pc sc : Bool) (pv sv : Bytes) (hEku : p.ctEku = true) (hrel : AkiRel p.aki pe fe)
     (hnp : hasOid poisonOid pe = false) (hns : hasOid sctOid fe = false)
@@ -445,6 +523,19 @@ example :
   · set_option maxRecDepth 100000 in decide
 
 /-! ## the leaf builders -/
+
+/-- who is a pre-issuer is decided by the CT key purpose among the KeyPurposeIds of `chain[1]` — and by nothing else -/
+theorem preissuer_iff_ct_eku (c : Chain1) :
+    (preIssuerOf (some c) = some c.pre ↔ ctEkuOid ∈ c.ekus) ∧ (preIssuerOf (some c) = none ↔ ctEkuOid ∉ c.ekus) ∧
+    c.pre.ctEku = c.ekus.contains ctEkuOid ∧ preIssuerOf none = none := by
+  simp only [preIssuerOf, Chain1.hasCtEku, Chain1.pre]
+  by_cases h : ctEkuOid ∈ c.ekus
+  · simp [h]
+  · simp [h]
+
+example : preIssuerOf (some ⟨[[0x2b, 0x06, 0x01, 0x05, 0x05, 0x07, 0x03, 0x01], ctEkuOid], ⟨[0x30], []⟩, none⟩) ≠ none ∧
+    preIssuerOf (some ⟨[[0x2b, 0x06, 0x01, 0x04, 0x01, 0xd6, 0x79, 0x02, 0x04, 0x05]], ⟨[0x30], []⟩, none⟩) = none := by
+  decide
 
 /-- The chain-length guards of the two leaf builders, **regenerated** from serialization.go (`n = len(chain) = rest.length + 1`),
 are the list patterns of the model: too short ⇒ refused; long enough ⇒ the TBS transformation paired with the key of
@@ -529,19 +620,70 @@ theorem leaf_routes_commute_preissuer (c : Tbs) (p : PreIssuer) (piName : Tlv) (
   simp only [leafFromPrecertChain, leafForEmbeddedSCT, ← h1, h2]
   simp
 
-/-- **An embedded SCT verifies exactly when the log signed that precertificate.** Whatever the log signed and the client checks
-is a function `verify` of the entry (`ct.SerializeSCTSignatureInput` over the `PreCert` entry, then the signature check of
-C05): since both routes build the same entry, the verdict is the same — for the direct and the pre-issuer layout. -/
-theorem embedded_sct_verifies_iff {β : Type} (verify : Bytes × Bytes → β) (c : Tbs) (p : PreIssuer) (piName : Tlv) (pe fe : List Ext)
+/-! ### "an embedded SCT verifies exactly when the log signed that precertificate" -/
+
+/-- the bytes a log signs for a precert entry `(TBSCertificate, issuer SubjectPublicKeyInfo)`: RFC 6962 §3.2's
+`digitally-signed struct` (`Rfc.sctSigInputV1`, which C04 proves to be what `ct.SerializeSCTSignatureInput` writes) over
+`PreCert{issuer_key_hash = H(spki), tbs_certificate}`; `H` stands for SHA-256 -/
+def sctInput (H : Bytes → Bytes) (timestamp : Nat) (ext : Bytes) (e : Bytes × Bytes) : Option Bytes :=
+  Rfc.sctSigInputV1 ⟨0, timestamp, .precert ⟨H e.2, e.1⟩, ext⟩
+
+/-- the verdict of `VerifySCT` on an entry (C05: the signature check over exactly those bytes); no entry, no verdict -/
+def sctVerifies (S : SigV.Scheme) (H : Bytes → Bytes) (pk : SigV.Key) (hashAlg timestamp : Nat) (ext : Bytes) (sig : SigV.SigVal)
+    (e : Option (Bytes × Bytes)) : Bool :=
+  match e.bind (sctInput H timestamp ext) with
+  | some d => S.verify pk hashAlg d sig
+  | none => false
+
+/-- **Direct issuer.** For every signature: the SCT verifies over the entry built from the final certificate (embedded route)
+iff it verifies over the entry built from the precertificate chain; and an SCT that the log produced by signing the precertificate's
+entry does verify on the final certificate. (The converse of the second part is unforgeability of the scheme, which is not assumed.) -/
+theorem embedded_sct_verifies_iff_direct (S : SigV.Scheme) (H : Bytes → Bytes) (k : S.Priv) (hashAlg timestamp : Nat) (ext : Bytes)
+    (t : Tbs) (es : List Ext) (i j : Nat) (pc sc : Bool) (pv sv : Bytes) (kIssuer : Bytes) (r1 r2 : List Bytes)
+    (hnp : hasOid poisonOid es = false) (hns : hasOid sctOid es = false)
+    (hwp : (t.withExts (insertAt es i ⟨poisonOid, pc, pv⟩)).wf = true)
+    (hws : (t.withExts (insertAt es j ⟨sctOid, sc, sv⟩)).wf = true) :
+    (∀ sig, sctVerifies S H (S.pub k) hashAlg timestamp ext sig
+        (leafForEmbeddedSCT (marshalTbs (t.withExts (insertAt es j ⟨sctOid, sc, sv⟩))) (kIssuer :: r2))
+      = sctVerifies S H (S.pub k) hashAlg timestamp ext sig
+        (leafFromPrecertChain (marshalTbs (t.withExts (insertAt es i ⟨poisonOid, pc, pv⟩))) (kIssuer :: r1) none)) ∧
+    (∀ d, (leafFromPrecertChain (marshalTbs (t.withExts (insertAt es i ⟨poisonOid, pc, pv⟩))) (kIssuer :: r1) none).bind
+            (sctInput H timestamp ext) = some d →
+      sctVerifies S H (S.pub k) hashAlg timestamp ext (S.sign k hashAlg d)
+        (leafForEmbeddedSCT (marshalTbs (t.withExts (insertAt es j ⟨sctOid, sc, sv⟩))) (kIssuer :: r2)) = true) := by
+  have h := (leaf_routes_commute t es i j pc sc pv sv kIssuer r1 r2 hnp hns hwp hws).1
+  refine ⟨fun sig => by rw [h], ?_⟩
+  intro d hd
+  rw [← h]
+  simp [sctVerifies, hd, S.correct]
+
+/-- **Pre-issuer.** The same for the chain layouts `[precert, preIssuer, issuer, …]` / `[final, issuer, …]`. -/
+theorem embedded_sct_verifies_iff (S : SigV.Scheme) (H : Bytes → Bytes) (k : S.Priv) (hashAlg timestamp : Nat) (ext : Bytes)
+    (c : Tbs) (p : PreIssuer) (piName : Tlv) (pe fe : List Ext)
     (i j : Nat) (pc sc : Bool) (pv sv : Bytes) (kPre kIssuer : Bytes) (r1 r2 : List Bytes)
     (hEku : p.ctEku = true) (hrel : AkiRel p.aki pe fe)
     (hnp : hasOid poisonOid pe = false) (hns : hasOid sctOid fe = false)
     (hwp : (({ c with issuer := piName } : Tbs).withExts (insertAt pe i ⟨poisonOid, pc, pv⟩)).wf = true)
     (hws : (({ c with issuer := p.issuer } : Tbs).withExts (insertAt fe j ⟨sctOid, sc, sv⟩)).wf = true) :
-    (leafFromPrecertChain (marshalTbs (({ c with issuer := piName } : Tbs).withExts (insertAt pe i ⟨poisonOid, pc, pv⟩)))
-        (kPre :: kIssuer :: r1) (some p)).map verify
-      = (leafForEmbeddedSCT (marshalTbs (({ c with issuer := p.issuer } : Tbs).withExts (insertAt fe j ⟨sctOid, sc, sv⟩))) (kIssuer :: r2)).map verify := by
-  rw [(leaf_routes_commute_preissuer c p piName pe fe i j pc sc pv sv kPre kIssuer r1 r2 hEku hrel hnp hns hwp hws).1]
+    (∀ sig, sctVerifies S H (S.pub k) hashAlg timestamp ext sig
+        (leafForEmbeddedSCT (marshalTbs (({ c with issuer := p.issuer } : Tbs).withExts (insertAt fe j ⟨sctOid, sc, sv⟩))) (kIssuer :: r2))
+      = sctVerifies S H (S.pub k) hashAlg timestamp ext sig
+        (leafFromPrecertChain (marshalTbs (({ c with issuer := piName } : Tbs).withExts (insertAt pe i ⟨poisonOid, pc, pv⟩)))
+          (kPre :: kIssuer :: r1) (some p))) ∧
+    (∀ d, (leafFromPrecertChain (marshalTbs (({ c with issuer := piName } : Tbs).withExts (insertAt pe i ⟨poisonOid, pc, pv⟩)))
+            (kPre :: kIssuer :: r1) (some p)).bind (sctInput H timestamp ext) = some d →
+      sctVerifies S H (S.pub k) hashAlg timestamp ext (S.sign k hashAlg d)
+        (leafForEmbeddedSCT (marshalTbs (({ c with issuer := p.issuer } : Tbs).withExts (insertAt fe j ⟨sctOid, sc, sv⟩))) (kIssuer :: r2)) = true) := by
+  have h := (leaf_routes_commute_preissuer c p piName pe fe i j pc sc pv sv kPre kIssuer r1 r2 hEku hrel hnp hns hwp hws).1
+  refine ⟨fun sig => by rw [h], ?_⟩
+  intro d hd
+  rw [← h]
+  simp [sctVerifies, hd, S.correct]
+
+/-- the signature input is not vacuous: for the concrete direct-issuer example it exists (32-byte key hash, TBS within 2^24-1) -/
+example : ((leafFromPrecertChain (marshalTbs (exBase.withExts [exPoison, exKU])) [[1], [2]] none).bind
+    (sctInput (fun _ => List.replicate 32 0x11) 1234 [])).isSome = true := by
+  set_option maxRecDepth 100000 in decide
 
 /-- pre-issuer layout on concrete chains: `[precert, preIssuer(key 1), issuer(key 2)]` against `[final, issuer(key 2)]` -/
 example :
@@ -610,17 +752,6 @@ theorem sctlist_roundtrip_rfc (l : List Bytes) (b : Bytes) (h : Rfc.sctList l = 
   rw [h, CtWire.eo_eq_some] at he
   have hv : sctExtValue l = some (encTlv ⟨[0x04], b⟩) := by simp [sctExtValue, he]
   exact ⟨hv, sctlist_roundtrip l _ hv⟩
-
-theorem concatAll_empty_item (l : List Bytes) (h : [] ∈ l) : Rfc.concatAll Rfc.serializedSCT l = none := by
-  induction l with
-  | nil => simp at h
-  | cons s rest ih =>
-    simp only [Rfc.concatAll]
-    simp at h
-    rcases h with h | h
-    · subst h; simp [Rfc.serializedSCT, Rfc.varVector]
-    · rw [ih h]
-      cases Rfc.serializedSCT s <;> rfl
 
 /-- an empty list and an empty SCT cannot be embedded (`<1..` on both levels) -/
 theorem sctlist_min (l : List Bytes) (h : l = [] ∨ [] ∈ l) : sctExtValue l = none := by
